@@ -12,6 +12,7 @@ real function, and compares after the call returned OR raised.
 """
 
 import hashlib
+import signal
 
 from .canon import Canon, canon_value
 
@@ -338,7 +339,17 @@ def _get(snapshot, path):
     return s
 
 
+class CallTimeout(BaseException):
+    """The real UFL call exceeded the per-call time limit (expression blow-up); the history is abandoned."""
+
+
+def _on_alarm(signum, frame):
+    raise CallTimeout()
+
+
 class Monitor:
+    call_limit = 6.0  # seconds per real call
+
     def __init__(self, ctx, full=True):
         self.ctx = ctx
         self.full = full
@@ -383,9 +394,19 @@ class Monitor:
         before = self.snapshot((args, kw))
         _t1 = _t.time()
         nobj = _count_leaves(before)
+        old = signal.signal(signal.SIGALRM, _on_alarm)
         try:
-            res = fn(*args, **kw)
+            signal.setitimer(signal.ITIMER_REAL, self.call_limit)
+            try:
+                res = fn(*args, **kw)
+            finally:
+                signal.setitimer(signal.ITIMER_REAL, 0)
             status = "ok"
+        except CallTimeout:
+            signal.signal(signal.SIGALRM, old)
+            ctx.count("call_timeouts")
+            ctx.covered("ops_timed_out", op)
+            raise
         except (KeyboardInterrupt, SystemExit, GeneratorExit, MemoryError):
             raise
         except BaseException as ex:  # UFL has error classes deriving from BaseException (ArityMismatch, ...)
